@@ -3,7 +3,7 @@
 From Coq Require Import ZArith List Bool Lia.
 Import ListNotations.
 From Osmo Require Import Base.DecModel CL.TickMath CL.CLMath CL.CLPool CL.CLSwap CL.CLStep
-  CLR.Accum CLR.Rewards CLR.RSwap CLR.RStep C07.Base C07.LP C08.Claim C08.Dom C08.Paid C08.PaidOps C08.PaidHist C08.ClaimInv C01.Full.
+  CLR.Accum CLR.Rewards CLR.RSwap CLR.RStep C07.Base C07.LP C08.Claim C08.Dom C08.Paid C08.PaidOps C08.PaidHist C08.ClaimInv C08.ClaimIncTime C01.Full.
 Open Scope Z_scope.
 
 Lemma sum_claims_spec : forall rs l c, sum_claims (claimable_spread rs) (map ps_id l) = Some c ->
@@ -132,4 +132,23 @@ Proof.
     destruct (claimable_spread_succeeds_reachable sp spf ssc isc users t ops p Hsp Hspf Hssc HIn (RG p HIn)) as [x X].
     fold rs0 in X. fold rs in X. rewrite X. discriminate. }
   exists c. split; [exact HC|]. exact (spread_covered_reachable sp spf ssc isc users t ops c Hsp Hspf Hssc0 HK HC).
+Qed.
+
+(* ---------- the incentive claims without the "queries succeed" hypothesis ---------- *)
+Theorem inc_claims_covered_total : forall sp spf ssc isc users t ops, (0 < sp)%Z -> (0 <= spf <= 500000000000000000)%Z -> (P18 <= isc)%Z ->
+  let rs0 := rinit sp spf ssc isc users t in
+  let rs := rrun rs0 ops in
+  hist_time_ok ops ->
+  ((hist_icost rs0 ops + Z.of_nat (length (s_pos (r_base rs)))) * Z.of_nat NU < 2 * isc)%Z ->
+  (forall p, In p (s_pos (r_base rs)) -> inc_range_ok rs p) ->
+  exists c, inc_claims rs = Some c /\ (fst c <= fst (b_inc (s_bank (r_base rs))))%Z /\ (snd c <= snd (b_inc (s_bank (r_base rs))))%Z.
+Proof.
+  intros sp spf ssc isc users t ops Hsp Hspf Hisc rs0 rs HT HK RG.
+  assert (Hisc0 : (0 < isc)%Z) by (pose proof C08.Conseq.P18_pos; lia).
+  destruct (sum_claims_total (fun id => match claimable_incentives rs id with
+                                         | Some (c, f) => Some (fst c + fst f, snd c + snd f)%Z | None => None end) (open_ids rs)) as [c HC].
+  { intros id Hid. unfold open_ids in Hid. apply in_map_iff in Hid. destruct Hid as [p [Ep HIn]]. subst id.
+    destruct (claimable_incentives_succeeds_reachable sp spf ssc isc users t ops p Hsp Hspf Hisc HT HIn (RG p HIn)) as [[cc ff] X].
+    fold rs0 in X. fold rs in X. rewrite X. discriminate. }
+  exists c. split; [exact HC|]. exact (inc_covered_reachable sp spf ssc isc users t ops c Hsp Hspf Hisc0 HK HC).
 Qed.
